@@ -88,14 +88,15 @@ def names_rule(ctx, facts, cfg):
     dom = F.dominators(f)
     loops = F.natural_loops(f)
     rdata_calls = [(bi, b['term']) for bi, b in F.blocks(f) if b['term']['k'] == 'call' and (F.call_path(b['term']) or '').endswith('Compress::uncompress_rdata')]
-    name_calls = [bi for bi, b in F.blocks(f) if b['term']['k'] == 'call' and ((F.call_path(b['term']) or '').endswith('::copy_raw_name') or (F.call_trait_path(b['term']) or '').endswith('::copy_raw_name'))]
+    EXPANDERS = ('::copy_raw_name', 'Compress::copy_uncompressed_name')
+    name_calls = [bi for bi, b in F.blocks(f) if b['term']['k'] == 'call' and ((F.call_path(b['term']) or '').endswith(EXPANDERS) or (F.call_trait_path(b['term']) or '').endswith(EXPANDERS))]
     for bi, t in rdata_calls:
         inner = None
         for h, body in loops.items():
             if bi in body and (inner is None or len(body) < len(inner)):
                 inner = body
         ok = inner is not None and any(nb in inner and (nb in dom.get(bi, ()) or nb == bi) for nb in name_calls)
-        ctx.instance(rid, 'section walk re-emitting record data at %s: the owner name is expanded by copy_raw_name earlier in the same iteration' % t.get('at'), ok=ok, site=t.get('at'))
+        ctx.instance(rid, 'section walk re-emitting record data at %s: the owner name is expanded (copy_raw_name / copy_uncompressed_name) earlier in the same iteration' % t.get('at'), ok=ok, site=t.get('at'))
         if not ok:
             ctx.violation(rid, UW, 'owner-name-not-expanded@%d' % (rdata_calls.index((bi, t)) + 1), 'a section walk of the decompressor re-emits record data at %s without expanding the record\'s owner name with '
                           'copy_raw_name in the same iteration: a name written with a compression pointer keeps the pointer in the output' % t.get('at'), site=t.get('at'), config=cfg)
